@@ -630,6 +630,18 @@ def _s_comb_pos(eng, st, c, lst, i, j):
     return Val(TInt, _m.comb_ufs(lst.ty)[2](c.t, ops.to_int(i), ops.to_int(j)))
 
 
+def _n_known_element(e):
+    import pysmiles
+    return e in pysmiles.PTE
+
+
+@spec('known_element', _n_known_element)
+def _s_known_element(eng, st, e):
+    """The element symbol is a key of pysmiles.PTE."""
+    from . import models as _m
+    return Val(TBool, _m.PTE_KNOWN(e.t))
+
+
 def _n_same_graph(a, b):
     # an old() snapshot is a deep copy that remembers the object it was taken from
     oa = getattr(a, '_pyvc_orig', a)
